@@ -178,6 +178,10 @@ def ev? (tok : String) : Option Ev :=
         match rest with
         | [t, cs] => (cmds? cs).map (fun cmds => .toolRaw sid (t == "1") cmds)
         | _ => none
+      else if k == 'R' then
+        match rest with
+        | [p] => p.toNat?.map (fun n => .restart sid n)
+        | _ => none
       else none
   | _ => none
 
